@@ -71,14 +71,22 @@ CasesOf(b) ==
       P == ToSet(ChildPath(o))
       gate(step) == b \in GateBases /\ step \in GateSteps
   IN IF HangCombo(o) THEN {}
-     ELSE { [s |-> SiteOf(b), r |-> RowOf(b), opt |-> o, fail |-> f.step, idx |-> f.idx, cb |-> "ok", hang |-> FALSE, gate |-> gate(f.step), crash |-> ""]
+     ELSE { [s |-> SiteOf(b), r |-> RowOf(b), opt |-> o, fail |-> f.step, idx |-> f.idx, cb |-> "ok", hang |-> FALSE, gate |-> gate(f.step), crash |-> "", tbl |-> ""]
             : f \in { ff \in Recipes : Applicable(o, P, ff) } }
-          \cup (IF o.sync THEN { [s |-> SiteOf(b), r |-> RowOf(b), opt |-> o, fail |-> "none", idx |-> 0, cb |-> x, hang |-> FALSE, gate |-> gate("none"), crash |-> ""] : x \in {"ok", "err"} }
+          \cup (IF o.sync THEN { [s |-> SiteOf(b), r |-> RowOf(b), opt |-> o, fail |-> "none", idx |-> 0, cb |-> x, hang |-> FALSE, gate |-> gate("none"), crash |-> "", tbl |-> ""] : x \in {"ok", "err"} }
                 ELSE {})
           \cup (IF o.sync /\ b \in CrashBases
-                THEN { [s |-> SiteOf(b), r |-> RowOf(b), opt |-> o, fail |-> "none", idx |-> 0, cb |-> "ok", hang |-> FALSE, gate |-> TRUE, crash |-> m] : m \in {"exit", "kill"} }
+                THEN { [s |-> SiteOf(b), r |-> RowOf(b), opt |-> o, fail |-> "none", idx |-> 0, cb |-> "ok", hang |-> FALSE, gate |-> TRUE, crash |-> m, tbl |-> ""] : m \in {"exit", "kill"} }
                 ELSE {})
-C07Cases == UNION { CasesOf(b) : b \in C07Bases \cup GateBases \cup CrashBases }
+\* Descriptor-table dimension of the gate family (run in every tier): the same launches that must NOT run the
+\* program -- a failure before the sync point (chdir), after it (execve of a missing file), a refusing callback --
+\* with tbl = "low": a Files table whose later slots hold numbers lower than their index (so that pass 1 of the
+\* child's descriptor set-up makes several temporary copies) while the status socketpair sits right above the
+\* table.  The report channel of the child (error record, sync word) must survive the descriptor passes.
+LowTable(c) == c.gate /\ c.crash = "" /\ ~c.opt.ucg
+               /\ ((c.fail \in {"chdir", "exec"} /\ c.idx = 0) \/ (c.fail = "none" /\ c.cb = "err"))
+C07Plain == UNION { CasesOf(b) : b \in C07Bases \cup GateBases \cup CrashBases }
+C07Cases == C07Plain \cup { [c EXCEPT !.tbl = "low"] : c \in { d \in C07Plain : LowTable(d) } }
 
 \* Container-sequence family (C04 through container.Environment.Execve): Execve calls with DIFFERENT option
 \* records run back to back on ONE pre-forked environment; every program must start in the state of ITS OWN
